@@ -733,7 +733,11 @@ def skipNoGuardT (k : Nat) (s : Bytes) : T Bytes :=
 /-- the mutant computes the same result at a cost equal to the magnitude of the step -/
 theorem skipNoGuardT_eq (k : Nat) (s : Bytes) : skipNoGuardT k s = ⟨dropRunes k s, k⟩ := dropFwdT_eq k s
 
-/-- so no bound in the size of the string exists for it: on the empty string it still costs `k` -/
+/-- so no bound in the size of the string exists for it: on the empty string it still costs `k`.
+    (The witness is the EXHAUSTED string, which slice.go:250 does see — after the last code point of the subject.  For a
+    fixed non-empty subject, for the mutant carried through the whole of `sliceStep` on "ab", and for the backward loop
+    slice.go:266, see `Jmes/Proofs/C09EMutants.lean`: `skipNoGuard_unbounded_nonempty`, `sliceStep_fwd_guard_matters`,
+    `sliceStep_bwd_guard_matters`.) -/
 theorem skipNoGuardT_unbounded : ¬ ∃ c : Nat, ∀ (k : Nat) (s : Bytes), (skipNoGuardT k s).2 ≤ c * (s.length + 1) := by
   intro ⟨c, h⟩
   have := h (c + 1) []
